@@ -1138,6 +1138,12 @@ func MatchGo(rv reflect.Value, want *refnbt.Value, path string) string {
 	return ""
 }
 
+// Named slice types (the decoder treats a named 8-bit slice differently from plain []byte).
+type (
+	NamedBytes []byte
+	NamedInt8s []int8
+)
+
 // TargetFor builds a Go type able to hold the tree `want` using natural
 // typed targets: scalars by width, typed slices, structs over a random subset
 // of the compound's keys (the rest exercises unknown-field skipping), maps and
@@ -1167,7 +1173,7 @@ func TargetFor(r *vm.Rand, want *refnbt.Value, depth int, feats map[string]bool)
 		return reflect.TypeOf("")
 	case refnbt.ByteArray:
 		feats["target.typedslice"] = true
-		return []reflect.Type{reflect.TypeOf([]byte(nil)), reflect.TypeOf([]int8(nil))}[r.Intn(2)]
+		return []reflect.Type{reflect.TypeOf([]byte(nil)), reflect.TypeOf([]int8(nil)), reflect.TypeOf([]bool(nil)), reflect.TypeOf(NamedBytes(nil)), reflect.TypeOf(NamedInt8s(nil))}[r.Intn(5)]
 	case refnbt.IntArray:
 		feats["target.typedslice"] = true
 		return reflect.TypeOf([]int32(nil))
